@@ -38,15 +38,6 @@ const (
 	c07Far       = 1000000 // ticks: a context deadline that is never reached
 )
 
-func init() {
-	// bin/check always points VERIF_KNOWN at /verif/known_findings.txt (which a
-	// harness builder must not edit). Until the finding of this check is
-	// registered there, a private list is honoured when it exists.
-	if _, err := os.Stat(c07KnownFile); err == nil {
-		_ = os.Setenv("VERIF_KNOWN", c07KnownFile)
-	}
-}
-
 // ---------------------------------------------------------------- case (data)
 
 type c07Item struct {
@@ -920,8 +911,11 @@ func (r *c07Run) normalOutcome() string {
 // disturbedOutcome: the outcome must be, in full, the one of an event that had
 // happened when the call returned. Among cancels only the earliest count (the
 // first cancel wins). The reducer's own result is acceptable only if it was
-// there no later than the first disturbing event. A context that is done, or a
-// mapper/generator panic, strictly before everything else decides alone.
+// there no later than the first disturbing event (except the "written twice"
+// panic, which is acceptable whenever two writes had been made). A context that
+// is done, or a mapper/generator panic, strictly before everything else decides
+// alone. Several events before the return that the statement does not order
+// (e.g. a cancel still draining a slow generator, then a ctx expiry): any of them.
 func (r *c07Run) disturbedOutcome(dist []c07Event, cls map[string]bool) string {
 	o := r.out
 	c := r.c
